@@ -58,7 +58,8 @@ impl CommandParser {
         file_path: &Path,
         type_resolver: &mut TypeResolver,
     ) -> Option<CommandInfo> {
-        let name = func.sig.ident.to_string();
+        // The function `r#move` is named `move`
+        let name = func.sig.ident.unraw().to_string();
 
         let parameters = self.extract_parameters(&func.sig.inputs, type_resolver);
         let return_type = self.extract_return_type(&func.sig.output);
